@@ -126,6 +126,11 @@ void do_launch(Ctx &c, int launcher, int id) {
     bool has_cpu = po && o.cpu_id >= 0;
     if (r.fault > 0) sim::set_create_fail(1, r.fault);
     if (r.fault == -1 && has_cpu) sim::set_affinity_fail(1, EINVAL);
+    // attribute calls failing: only armed when the launch will actually make that call
+    int attr_err = 0;
+    if (r.fault == -2 && po) { sim::set_attr_fail(1, ENOMEM); attr_err = ENOMEM; }
+    if (r.fault == -3 && po && o.stack_size > (size_t)PTHREAD_STACK_MIN) { sim::set_attr_fail(2, EINVAL); attr_err = EINVAL; }
+    if (r.fault == -4 && po && o.stack_size == 0) { sim::set_attr_fail(3, EINVAL); attr_err = EINVAL; }
     g_args[id] = Arg{&c, id, 0xC20C20 + (uint64_t)id};
     aws_thread_init(&r.thread, c.alloc);
     size_t count_before = aws_thread_get_managed_thread_count();
@@ -135,21 +140,22 @@ void do_launch(Ctx &c, int launcher, int id) {
     int err = rc ? aws_last_error() : 0;
     r.launch_returned = true;
     c.ops_done++;
-    bool expect_fail = r.fault > 0 && !has_cpu; // with a cpu_id the library retries once without pinning
+    bool expect_fail = (r.fault > 0 || attr_err) && !has_cpu; // with a cpu_id the library retries once without pinning
+    int fail_errno = r.fault > 0 ? r.fault : attr_err;
     if (rc == AWS_OP_SUCCESS) {
         if (expect_fail) sim::violation("c20:launch", "thread %d: pthread_create failed with errno %d but aws_thread_launch reported success", id, r.fault);
         r.launched_ok = true;
-        if ((r.fault > 0 || r.fault == -1) && has_cpu) sim::probe("launch_retried_without_cpu_pin");
+        if ((r.fault > 0 || r.fault == -1 || attr_err) && has_cpu) sim::probe("launch_retried_without_cpu_pin");
         enum aws_thread_detach_state ds = aws_thread_get_detach_state(&r.thread);
         if (r.managed && ds != AWS_THREAD_MANAGED) sim::violation("c20:launch", "managed thread %d has detach state %d", id, (int)ds);
         if (!r.managed && ds != AWS_THREAD_JOINABLE) sim::violation("c20:launch", "joinable thread %d has detach state %d", id, (int)ds);
     } else {
         if (!expect_fail) sim::violation("c20:launch", "thread %d: aws_thread_launch failed (error %d) without an injected fault that explains it", id, err);
-        int want = r.fault == EINVAL ? AWS_ERROR_THREAD_INVALID_SETTINGS
-                   : r.fault == EAGAIN ? AWS_ERROR_THREAD_INSUFFICIENT_RESOURCE
-                   : r.fault == EPERM ? AWS_ERROR_THREAD_NO_PERMISSIONS
-                   : r.fault == ENOMEM ? AWS_ERROR_OOM : AWS_ERROR_UNKNOWN;
-        if (err != want) sim::violation("c20:launch-error-code", "thread %d: errno %d from pthread_create mapped to aws error %d, documented mapping is %d", id, r.fault, err, want);
+        int want = fail_errno == EINVAL ? AWS_ERROR_THREAD_INVALID_SETTINGS
+                   : fail_errno == EAGAIN ? AWS_ERROR_THREAD_INSUFFICIENT_RESOURCE
+                   : fail_errno == EPERM ? AWS_ERROR_THREAD_NO_PERMISSIONS
+                   : fail_errno == ENOMEM ? AWS_ERROR_OOM : AWS_ERROR_UNKNOWN;
+        if (err != want) sim::violation("c20:launch-error-code", "thread %d: errno %d from a failing pthread call mapped to aws error %d, documented mapping is %d", id, fail_errno, err, want);
         sim::probe("launch_failed");
     }
 }
@@ -378,7 +384,7 @@ void gen(uint64_t seed, int tier, sim::Plan &p) {
         s.b = i > nmanual;
         s.c = r.pick(std::vector<int64_t>{0, 0, 1, 2, 3, 4, 5, 6});
         s.d = 0;
-        if (faults && r.chance(0.1)) s.d = r.pick(std::vector<int64_t>{EAGAIN, ENOMEM, EPERM, EINVAL, -1});
+        if (faults && r.chance(0.12)) s.d = r.pick(std::vector<int64_t>{EAGAIN, ENOMEM, EPERM, EINVAL, -1, -2, -3, -4});
         p.ops.push_back(s);
     }
     // who launches whom: main launches some; threads launch some of the later ones
@@ -440,7 +446,8 @@ std::string op_text(const sim::Op &op) {
     switch (op.kind) {
         case OP_SPEC:
             snprintf(b, sizeof b, "thread %lld: %s, %s%s", (long long)(op.a % MAXT) + 1, op.b ? "managed" : "joinable", opt[op.c % 7],
-                     op.d > 0 ? " [pthread_create fails]" : op.d == -1 ? " [pthread_attr_setaffinity_np fails]" : "");
+                     op.d > 0 ? " [pthread_create fails]" : op.d == -1 ? " [pthread_attr_setaffinity_np fails]" : op.d == -2 ? " [pthread_attr_init fails]"
+                     : op.d == -3 ? " [pthread_attr_setstacksize fails]" : op.d == -4 ? " [pthread_attr_getstacksize fails]" : "");
             break;
         case OP_LAUNCH: snprintf(b, sizeof b, "thread %d: launch(thread %lld)", op.thr, (long long)(op.a % MAXT) + 1); break;
         case OP_JOIN: snprintf(b, sizeof b, "thread %d: aws_thread_join(thread %lld)", op.thr, (long long)(op.a % MAXT) + 1); break;
